@@ -12,6 +12,7 @@
 From Coq Require Import ZArith List Bool Relations.
 From FT Require Import Model.SubsetExport Proofs.SubsetExportProofs.
 From FT Require Model.PyRt2 Gen.SubsetUtils_gen Proofs.SubsetTie.
+From FT Require Proofs.ExportTie.
 Import ListNotations.
 Open Scope Z_scope.
 
@@ -121,6 +122,20 @@ Theorem C15_filter_is_generated_partial : forall g sel,
   FT.Gen.SubsetUtils_gen.gen_filter_graph_with_ancestors g sel = FT.Model.PyRt2.Ok (filter_graph_with_ancestors g sel).
 Proof. exact FT.Proofs.SubsetTie.gen_filter_graph_with_ancestors_partial. Qed.
 
+(* ---- the export side of the model is, for all arguments, the code translated on every run from the current csv/_export.py, geff/_export.py, internal_format.py and _feature_dict.py (Gen/ExportPipeline_gen.v; translator harness/translate_export.py, fail closed; combinators Model/PyRt7.v; every file write is an event carrying exactly the value handed to the writer).  The statements are those of the cited theorems of Proofs/ExportTie.v ---- *)
+Theorem C15_csv_rows_are_generated : ltac:(let t := type of @FT.Proofs.ExportTie.gen_export_to_csv_subset_rows in exact t).
+Proof. exact @FT.Proofs.ExportTie.gen_export_to_csv_subset_rows. Qed.
+
+Theorem C15_csv_empty_selection_is_generated : ltac:(let t := type of @FT.Proofs.ExportTie.gen_export_to_csv_empty_selection in exact t).
+Proof. exact @FT.Proofs.ExportTie.gen_export_to_csv_empty_selection. Qed.
+
+Theorem C15_geff_subset_is_generated : ltac:(let t := type of @FT.Proofs.ExportTie.gen_export_to_geff_subset_seg_eq in exact t).
+Proof. exact @FT.Proofs.ExportTie.gen_export_to_geff_subset_seg_eq. Qed.
+
+Theorem C15_geff_subset_is_model : ltac:(let t := type of @FT.Proofs.ExportTie.geff_subset_is_model in exact t).
+Proof. exact @FT.Proofs.ExportTie.geff_subset_is_model. Qed.
+
+
 Example C15_ex_well_formed : well_formed ex_g /\ incl [3; 21] (g_nodes ex_g).
 Proof.
   split.
@@ -185,3 +200,7 @@ Print Assumptions C15_chunks.
 Print Assumptions C15_chunks_nd.
 Print Assumptions C15_filter_is_generated.
 Print Assumptions C15_filter_is_generated_partial.
+Print Assumptions C15_csv_rows_are_generated.
+Print Assumptions C15_csv_empty_selection_is_generated.
+Print Assumptions C15_geff_subset_is_generated.
+Print Assumptions C15_geff_subset_is_model.
